@@ -66,6 +66,25 @@ BlockVerdict(e) ==
         IN [ok |-> FALSE, why |-> "pixels", det |-> cls(top) \o "/" \o cls(bot)]
      ELSE [ok |-> TRUE, why |-> "", det |-> ""]
 
+(* the same image object, resized into a smaller box and drawn again *)
+ScaledVerdict(e) ==
+  LET W == Win(e.chain, t.cols, t.rows)
+      D == Diff(t, base)
+      want == {p \in (0..(e.ow - 1)) \X (0..(e.oh - 1)) : Accepts(W, p[1], p[2])}
+      wantAbs == {<<AbsX(W, p[1]), AbsY(W, p[2])>> : p \in want}
+      esc == {p \in D : ~Inside(W.clip, p[1], p[2])}
+      bad == {p \in want :
+                LET hv == Halves(At(t.grid, AbsX(W, p[1]), AbsY(W, p[2])), e.gl) IN
+                hv = <<>> \/ ~ScaledCellOK(hv[1], hv[2], Foot(e.px, e.iw, e.ih, e.ow, e.oh, p[1], p[2]), p[2] = e.oh - 1)}
+  IN IF esc # {} THEN [ok |-> FALSE, why |-> "escape", det |-> "cells-outside-window"]
+     ELSE IF e.ow < 1 \/ e.oh < 1 \/ e.ow > e.bw \/ e.oh > e.bh THEN [ok |-> FALSE, why |-> "fit", det |-> "second-encoding-exceeds-box"]
+     ELSE IF ~(D \subseteq wantAbs) THEN [ok |-> FALSE, why |-> "pixels", det |-> "cell-outside-rescaled-image-changed"]
+     ELSE IF bad # {} THEN
+        LET p == CHOOSE p \in bad : \A q \in bad : p[2] < q[2] \/ (p[2] = q[2] /\ p[1] <= q[1])
+            F == Foot(e.px, e.iw, e.ih, e.ow, e.oh, p[1], p[2])
+        IN [ok |-> FALSE, why |-> "pixels", det |-> "rescaled:" \o (IF \A q \in F : Transparent(q) THEN "clear" ELSE "solid")]
+     ELSE [ok |-> TRUE, why |-> "", det |-> ""]
+
 (* ---- placement histories ---------------------------------------------- *)
 RectCells(x, y, w, h) == {p \in (x..(x + w - 1)) \X (y..(y + h - 1)) : p[1] >= 0 /\ p[1] < t.cols /\ p[2] >= 0 /\ p[2] < t.rows}
 
@@ -181,6 +200,9 @@ Next ==
      ELSE IF e.ev = "bcheck" THEN
         /\ UNCHANGED <<t, base, gt, shown, bind, fs, cfg, failed>>
         /\ LET v == BlockVerdict(e) IN IF v.ok THEN TRUE ELSE Reject(e, v.why, v.det)
+     ELSE IF e.ev = "bscaled" THEN
+        /\ UNCHANGED <<t, base, gt, shown, bind, fs, cfg, failed>>
+        /\ LET v == ScaledVerdict(e) IN IF v.ok THEN TRUE ELSE Reject(e, v.why, v.det)
      ELSE IF e.ev = "gframe" THEN
         /\ UNCHANGED <<t, base, gt, cfg>>
         /\ fs' = l
